@@ -3,8 +3,9 @@
     in any order) that the specification reads as a value [v] of type [t], the
     BER decoder model decodes the octets [bser x], wherever they stand in the
     data, to exactly [v] and stops exactly behind them. *)
+From Coq Require Import Permutation.
 From Asn1V Require Import Base.Prelude Syntax.Asn1 Ber.Header Ber.HeaderProofs Ber.BerCommon Ber.X690 Ber.BerScope
-     Ber.BerLeafA Ber.BerLeafB Ber.BerAcceptBase Ber.BerAcceptBits Ber.BerMembers Ber.BerTrunc.
+     Ber.BerLeafA Ber.BerLeafB Ber.BerAcceptBase Ber.BerAcceptBits Ber.BerMembers Ber.BerSet Ber.BerTrunc Ber.BerImpl.
 
 (** case analysis on a Z scrutinised against a small literal *)
 Ltac zlit n H :=
@@ -462,6 +463,120 @@ Proof.
     unfold children_bytes in *. lia.
 Qed.
 
+(** BER's compile-time ordering of the SET components is a permutation *)
+Lemma insert_sorted_perm {A} (leb : A -> A -> bool) x l : Permutation (insert_sorted leb x l) (x :: l).
+Proof.
+  induction l as [|y l IHl]; cbn [insert_sorted]; [apply Permutation_refl|].
+  destruct (leb x y); [apply Permutation_refl|].
+  eapply Permutation_trans; [apply perm_skip; exact IHl | apply perm_swap].
+Qed.
+
+Lemma isort_perm {A} (leb : A -> A -> bool) l : Permutation (isort leb l) l.
+Proof.
+  induction l as [|x l IHl]; cbn [isort]; [constructor|].
+  eapply Permutation_trans; [apply insert_sorted_perm | apply perm_skip; exact IHl].
+Qed.
+
+Lemma sort_members_ber_perm f root root' : sort_members_ber e f root = Ok root' -> Permutation root' root.
+Proof.
+  unfold sort_members_ber. intros H.
+  destruct (mapM _ root) as [keyed|] eqn:Em; [|discriminate]. cbn [bind] in H. injection H as <-.
+  assert (Hk : map snd keyed = root).
+  { apply mapM_ok in Em. induction Em as [|m km ms kms Hm _ IHm]; [reflexivity|].
+    cbn [map]. destruct (static_tag_key e f (m_ty m)); [|discriminate]. cbn [bind] in Hm. injection Hm as <-.
+    cbn [snd]. f_equal. exact IHm. }
+  rewrite <- Hk. apply Permutation_map. apply isort_perm.
+Qed.
+
+Lemma disjoint_sym a b : disjoint a b = true -> disjoint b a = true.
+Proof.
+  unfold disjoint. rewrite !forallb_forall. intros H y Hy. apply negb_true_iff.
+  destruct (existsb (tag_eqb y) a) eqn:E; [|reflexivity]. exfalso.
+  apply existsb_exists in E. destruct E as (x & Hx & Exy). apply tag_eqb_eq in Exy. subst y.
+  specialize (H x Hx). apply negb_true_iff in H.
+  assert (existsb (tag_eqb x) b = true) by (apply existsb_exists; exists x; split; [exact Hy | apply tag_eqb_eq; reflexivity]).
+  congruence.
+Qed.
+
+Lemma pairwise_disjoint_in (g : member_of ty -> list (tclass * Z)) ms m m' :
+  pairwise_disjoint (map g ms) = true -> In m ms -> In m' ms -> m_name m <> m_name m' ->
+  disjoint (g m) (g m') = true.
+Proof.
+  induction ms as [|a ms IHm]; intros Hp Hm Hm' Hne; [destruct Hm|].
+  cbn [map pairwise_disjoint] in Hp. apply andb_prop in Hp. destruct Hp as [Ha Hp].
+  rewrite forallb_forall in Ha.
+  destruct Hm as [->|Hm]; destruct Hm' as [->|Hm'].
+  - contradiction.
+  - apply Ha. apply in_map. exact Hm'.
+  - apply disjoint_sym. apply Ha. apply in_map. exact Hm.
+  - apply IHm; assumption.
+Qed.
+
+Lemma set_contents f root root' ext data q r' endo ch fields used :
+  Acc f ->
+  scope_enc numeric e (S f) (TSeq true root ext) = true ->
+  scope_dec e (S f) (TSeq true root ext) = true ->
+  compiles e (S f) (TSeq true root ext) = true ->
+  sort_members_ber e f root = Ok root' ->
+  data = q ++ children_bytes ch ++ r' ->
+  closed endo (length q + length (children_bytes ch))%nat r' ->
+  forallb bwf ch = true ->
+  read_set e f (rd f) (length root) false (root ++ flat_additions ext) ch = Some (fields, used) ->
+  used = length ch ->
+  forallb (fun x => existsb (fun m => has_tag e f (m_ty m) x) (root ++ flat_additions ext)) ch = true ->
+  (let decm := fun m o => decb f None (m_ty m) data o in
+   let* (off2, out2, vals2) :=
+      (let adds := additions_flat ext in
+       let is_add := fun m => existsb (fun a => String.eqb (m_name m) (m_name a)) adds in
+       let* (off1, out1, vals1, un) :=
+          members_loop (S (length (root' ++ adds))) decm data endo (root' ++ adds) (length q) false [] in
+       let* vals1' := members_missing (filter (fun m => negb (is_add m)) un) false out1 vals1 in
+       let* vals1'' := members_missing (filter is_add un) true out1 vals1' in
+       Ok (off1, out1, vals1'')) in
+   let v := VSeq (canon_fields (members_of root ext) vals2) in
+   if out2 then Ok (v, off2)
+   else match endo with None => Err EDecode | Some en => Ok (v, en) end)
+  = Ok (VSeq fields, after_close endo (length q + length (children_bytes ch))).
+Proof.
+  intros IH Hse Hsd Hcp Hsort Hd Hcl Hw Hr Hused Hown.
+  cbn [scope_enc] in Hse. cbn [scope_dec] in Hsd. cbn [compiles] in Hcp.
+  change (additions_flat ext) with (flat_additions ext).
+  change (members_of root ext) with (root ++ flat_additions ext).
+  remember (flat_additions ext) as adds eqn:Eadds0.
+  apply andb_prop in Hse. destruct Hse as [Hnd Hse].
+  apply andb_prop in Hcp. destruct Hcp as [Hcp _].
+  apply andb_prop in Hsd. destruct Hsd as [Hsd Hsd4]. apply andb_prop in Hsd. destruct Hsd as [Hsd Hsd3].
+  apply andb_prop in Hsd4. destruct Hsd4 as [Hpw Hgreedy].
+  pose proof (sort_members_ber_perm f root root' Hsort) as Hperm.
+  assert (Hnd' : NoDup (map (@m_name ty) (root ++ adds))) by (apply nodupb_NoDup; exact Hnd).
+  assert (Hdisj : forall m m' x, In m (root ++ adds) -> In m' (root ++ adds) -> m_name m <> m_name m' ->
+                                 has_tag e f (m_ty m) x = true -> has_tag e f (m_ty m') x = false).
+  { intros m m' x Hm Hm' Hne Ht.
+    apply (disjoint_has_tag f (m_ty m') (m_ty m) x); [|exact Ht].
+    apply (pairwise_disjoint_in (fun m0 => outer_tags e f (m_ty m0)) (root ++ adds)); try assumption.
+    intros E. apply Hne. symmetry. exact E. }
+  assert (Hng : forall m, In m (root ++ adds) -> greedy_choice e f (m_ty m) = false).
+  { intros m Hm. rewrite forallb_forall in Hgreedy. apply negb_true_iff. apply Hgreedy. exact Hm. }
+  destruct (set_one_loop numeric e f root root' adds ch fields used Hperm Hnd' Hdisj Hng Hr Hused Hown)
+    as (vals & un & Hloop & Hnm & Hcanon).
+  assert (Hincl : incl (root' ++ adds) (root ++ adds)).
+  { intros m Hm. apply in_app_or in Hm. apply in_or_app. destruct Hm as [Hm|Hm]; [left|right; exact Hm].
+    eapply Permutation_in; [exact Hperm | exact Hm]. }
+  assert (Hbeh : behaves (tr_of numeric e f) (fun m o => decb f None (m_ty m) data o) data (root ++ adds) ch).
+  { apply members_behave; assumption. }
+  cbv zeta. set (decm := fun (m : member_of ty) (o : nat) => decb f None (m_ty m) data o) in *.
+  destruct (members_loop_tloop (tr_of numeric e f) decm data endo (S (length (root' ++ adds))) (root' ++ adds) ch q r'
+                               [] [] vals un (length q) false Hd Hcl Hw)
+    as (q1 & Hq1 & Hlen1 & Hloop1).
+  { eapply behaves_incl; [exact Hbeh | exact Hincl | apply incl_refl]. }
+  { right. split; reflexivity. }
+  { exact Hloop. }
+  rewrite Hloop1. cbn [bind]. rewrite (members_missing_strict _ _ _ Hnm). cbn [bind].
+  rewrite members_missing_ignore. cbn [bind isnil pos].
+  rewrite Hcanon. f_equal. f_equal.
+  unfold children_bytes in *. cbn [map concat length] in Hlen1. rewrite Nat.add_0_r in Hlen1. rewrite Hlen1. reflexivity.
+Qed.
+
 Theorem dec_accepts : forall f, Acc f.
 Proof.
   induction f as [|f IH]; intros ovr t x v p r Hse Hsd Hcp Ho Hu Hw Hr.
@@ -534,7 +649,93 @@ Proof.
     destruct (bwf_prim _ _ _ _ Hw) as (_ & _ & Hbytes & _).
     apply (std_prim_accept (fun d => dec_oid d) ovr 6 _ _ lo content p r _ Ht Hw).
     intros q r'. apply dec_oid_at; assumption.
-  - admit.
+  - (* TSeq *)
+    set (u := if isset then 17 else 16).
+    assert (Hot : outer_tags e (S f) (TSeq isset root ext) = [(Univ, u)]) by reflexivity.
+    destruct (reading_norm (S f) ovr (TSeq isset root ext) x v Univ u Hot Hr) as [Hb Ht]. cbn [bread] in Hb.
+    destruct (bretag Univ u x) as [|c' n' l ch] eqn:Ex; [discriminate|].
+    destruct (bretag_cons_inv _ _ _ _ _ _ _ Ex) as (Hx & -> & ->).
+    fold u in Hb. rewrite Z.eqb_refl in Hb.
+    destruct (bwf_tag x Hw) as [Hxn _].
+    assert (Hmk : mk_tag ovr u true = identifier (fst (btag x)) true (snd (btag x))) by (apply mk_tag_of_x; assumption).
+    fold u. rewrite Hmk.
+    rewrite Hx in Hw |- *. cbn [btag fst snd] in *.
+    set (cx := fst (btag x)) in *. set (nx := snd (btag x)) in *.
+    assert (Hwch : forallb bwf ch = true) by (destruct l; [apply bwf_cons_def in Hw | apply bwf_cons_indef in Hw]; tauto).
+    destruct isset.
+    + (* SET *)
+      destruct (read_set e f (rd f) (length root) false (root ++ flat_additions ext) ch) as [[fields used]|] eqn:Ers;
+        [|discriminate].
+      destruct ((used =? length ch)%nat && forallb (fun x0 => existsb (fun m => has_tag e f (m_ty m) x0)
+                                                                    (root ++ flat_additions ext)) ch) eqn:Echk;
+        [|discriminate].
+      injection Hb as <-. apply andb_prop in Echk. destruct Echk as [Hused Hown]. apply Nat.eqb_eq in Hused.
+      pose proof Hcp as Hcp'. cbn [compiles] in Hcp'. apply andb_prop in Hcp'. destruct Hcp' as [_ Hsortok].
+      destruct (sort_members_ber e f root) as [root'|] eqn:Esort; [|discriminate].
+      assert (Hroot : compiled_root false e f true root = Ok root') by (unfold compiled_root; cbn [andb negb]; exact Esort).
+      destruct l as [lo|].
+      * destruct (bwf_cons_def _ _ _ _ Hw) as (_ & _ & _ & Hl).
+        cbn [bser]. rewrite <- !app_assoc.
+        rewrite (std_decode_definite cx true nx lo (concat (map bser ch)) r p true _ Hxn Hl).
+        rewrite Hroot. cbn [bind end_of]. rewrite Nat2Z.id.
+        set (q := p ++ identifier cx true nx ++ lo).
+        replace (length p + length (identifier cx true nx) + length lo)%nat with (length q)
+          by (unfold q; rewrite !app_length; lia).
+        pose proof (set_contents f root root' ext (p ++ identifier cx true nx ++ lo ++ concat (map bser ch) ++ r)
+                                 q r (Some (length q + length (concat (map bser ch)))%nat) ch fields used IH) as Hsc.
+        cbn [scope_enc scope_dec compiles] in Hsc. cbv zeta in Hsc. rewrite Hsc; try assumption.
+        -- cbn [bind after_close]. f_equal. f_equal. unfold q, children_bytes. rewrite !app_length. lia.
+        -- rewrite Esort. exact Hcp.
+        -- unfold q, children_bytes. rewrite <- !app_assoc. reflexivity.
+        -- cbn [closed]. reflexivity.
+      * cbn [bser]. rewrite <- !app_assoc. cbn [app].
+        rewrite (std_decode_indefinite cx true nx (concat (map bser ch) ++ 0 :: 0 :: r) p).
+        rewrite Hroot. cbn [bind end_of].
+        set (q := p ++ identifier cx true nx ++ [128%Z]).
+        replace (S (length p + length (identifier cx true nx))) with (length q)
+          by (unfold q; rewrite !app_length; cbn [length]; lia).
+        pose proof (set_contents f root root' ext (p ++ identifier cx true nx ++ 128 :: concat (map bser ch) ++ 0 :: 0 :: r)
+                                 q (0 :: 0 :: r) None ch fields used IH) as Hsc.
+        cbn [scope_enc scope_dec compiles] in Hsc. cbv zeta in Hsc. rewrite Hsc; try assumption.
+        -- cbn [bind after_close]. f_equal. f_equal. unfold q, children_bytes. rewrite !app_length. cbn [length].
+           rewrite !app_length. cbn [length]. lia.
+        -- rewrite Esort. exact Hcp.
+        -- unfold q, children_bytes. rewrite <- !app_assoc. reflexivity.
+        -- cbn [closed]. eexists; reflexivity.
+    + (* SEQUENCE *)
+      destruct (read_sequence e f (rd f) (length root) false (root ++ flat_additions ext) ch) as [fields|] eqn:Ers;
+        [|discriminate].
+      cbn in Hb. injection Hb as <-.
+      assert (Hroot : compiled_root false e f false root = Ok root) by reflexivity.
+      destruct l as [lo|].
+      * destruct (bwf_cons_def _ _ _ _ Hw) as (_ & _ & _ & Hl).
+        cbn [bser]. rewrite <- !app_assoc.
+        rewrite (std_decode_definite cx true nx lo (concat (map bser ch)) r p true _ Hxn Hl).
+        rewrite Hroot. cbn [bind end_of]. rewrite Nat2Z.id.
+        set (q := p ++ identifier cx true nx ++ lo).
+        replace (length p + length (identifier cx true nx) + length lo)%nat with (length q)
+          by (unfold q; rewrite !app_length; lia).
+        pose proof (sequence_contents f root ext (p ++ identifier cx true nx ++ lo ++ concat (map bser ch) ++ r)
+                                      q r (Some (length q + length (concat (map bser ch)))%nat) ch fields IH) as Hsc.
+        cbn [scope_enc scope_dec compiles] in Hsc. cbv zeta in Hsc.
+        rewrite Hsc; try assumption.
+        -- cbn [bind after_close]. f_equal. f_equal. unfold q, children_bytes. rewrite !app_length. lia.
+        -- unfold q, children_bytes. rewrite <- !app_assoc. reflexivity.
+        -- cbn [closed]. reflexivity.
+      * cbn [bser]. rewrite <- !app_assoc. cbn [app].
+        rewrite (std_decode_indefinite cx true nx (concat (map bser ch) ++ 0 :: 0 :: r) p).
+        rewrite Hroot. cbn [bind end_of].
+        set (q := p ++ identifier cx true nx ++ [128%Z]).
+        replace (S (length p + length (identifier cx true nx))) with (length q)
+          by (unfold q; rewrite !app_length; cbn [length]; lia).
+        pose proof (sequence_contents f root ext (p ++ identifier cx true nx ++ 128 :: concat (map bser ch) ++ 0 :: 0 :: r)
+                                      q (0 :: 0 :: r) None ch fields IH) as Hsc.
+        cbn [scope_enc scope_dec compiles] in Hsc. cbv zeta in Hsc.
+        rewrite Hsc; try assumption.
+        -- cbn [bind after_close]. f_equal. f_equal. unfold q, children_bytes. rewrite !app_length. cbn [length].
+           rewrite !app_length. cbn [length]. lia.
+        -- unfold q, children_bytes. rewrite <- !app_assoc. reflexivity.
+        -- cbn [closed]. eexists; reflexivity.
   - (* TSeqOf *)
     set (u := if isset then 17 else 16).
     assert (Hot : outer_tags e (S f) (TSeqOf isset el sz) = [(Univ, u)]) by reflexivity.
@@ -679,6 +880,20 @@ Proof.
       * rewrite <- Ht. rewrite btag_eta. cbn [ovr_ok]. exact Hxn.
       * intros _. exact Euc.
       * cbn [reading]. split; [exact Ht|]. exists c', n'. split; [exact Eo | exact Hb].
-Admitted.
+Qed.
+
+(** C04, main statement: every BER tree that the specification reads as [v]
+    is decoded, with any octets after it, to exactly [v], and the decoder
+    stops exactly behind it. *)
+Theorem ber_accepts_tree fuel t x v tail :
+  in_scope numeric e fuel t = true -> compiles e fuel t = true ->
+  bwf x = true -> rd fuel t x = Some v ->
+  Ber.BerImpl.ber_decode numeric fuel e t (bser x ++ tail) = Ok (v, length (bser x)).
+Proof.
+  intros Hs Hc Hw Hr. unfold in_scope in Hs. apply andb_prop in Hs. destruct Hs as [Hs1 Hs2].
+  unfold BerImpl.ber_decode, decode_top.
+  pose proof (dec_accepts fuel None t x v [] tail Hs1 Hs2 Hc I ltac:(congruence) Hw Hr) as H.
+  cbn [app length] in H. rewrite H. reflexivity.
+Qed.
 
 End Main.
